@@ -654,6 +654,14 @@ impl Ctx {
             normal
         }
     }
+    /// thorough-tier count: `light` when composed into C02/C03, `normal` for the property's own run
+    pub fn big(&self, light: i64, normal: i64) -> i64 {
+        if self.light {
+            light
+        } else {
+            normal
+        }
+    }
     /// for sequential loops: is item `k` part of this shard?
     #[inline]
     pub fn mine(&self, k: u64) -> bool {
